@@ -247,6 +247,10 @@ def rules(ctx):
     ctx.rule('R03.7', "the weight enters the boolean penalties only linearly (premise: the spin methods delegate to them)", floor=4)
     from .C16 import weight_linearity
     weight_linearity(ctx, 'R03.7')
+    C02.arity_guards(ctx, 'R03.7', P.opt_funcs(['_pcbo._special_constraints_eq_zero', '_pcbo._special_constraints_le_zero']) or
+                     [P.func('PCBO.add_constraint_eq_zero'), P.func('PCBO.add_constraint_le_zero')])
+    C02.slack_register_size(ctx, 'R03.7', [P.func('PCBO.add_constraint_le_zero'), P.func('PCBO.add_constraint_ne_zero')] +
+                            P.opt_funcs(['_pcbo._special_constraints_le_zero']))
     C02.merge_discipline(ctx, 'R03.7', list(C02.rel_methods(P, 'PCBO').values()) + P.opt_funcs(
         ['_pcbo._special_constraints_eq_zero', '_pcbo._special_constraints_le_zero']))
 
